@@ -1,71 +1,99 @@
 package redisemu
 
-import "strings"
-
+// redisGlob matches a candidate against a Redis glob-style pattern:
+//
+//   - any sequence of characters
+//     ?        any single character
+//     [abc]    one of the characters; [a-z] a range; [^a] any character but those
+//     \x       the character x, without special meaning
+//
+// A nil pattern matches everything.
 func redisGlob(pattern, candidate []rune) bool {
-
 	if pattern == nil {
 		return true
 	}
 
-	patPos := 0
-	for i := 0; i < len(candidate); i++ {
-		if patPos >= len(pattern) {
-			return false
-		}
-
-		patCh := pattern[patPos]
-		if patCh == '?' {
-			patPos++
-			continue
-		} else if patCh == '*' {
-			patPos++
-			if patPos >= len(pattern) {
+	for len(pattern) > 0 && len(candidate) > 0 {
+		switch pattern[0] {
+		case '*':
+			for len(pattern) > 1 && pattern[1] == '*' {
+				pattern = pattern[1:]
+			}
+			if len(pattern) == 1 {
 				return true
 			}
-
-			for j := i; j < len(candidate); j++ {
-				if redisGlob(pattern[patPos:], candidate[j:]) {
+			for i := 0; i <= len(candidate); i++ {
+				if redisGlob(pattern[1:], candidate[i:]) {
 					return true
 				}
 			}
-
 			return false
-		} else if patCh == '[' {
-			var patSet strings.Builder
-			patPos++
-			for patPos < len(pattern) {
-				letter := pattern[patPos]
-				if letter == ']' {
-					patPos++
-					break
+
+		case '?':
+			candidate = candidate[1:]
+
+		case '[':
+			pattern = pattern[1:]
+			not := len(pattern) > 0 && pattern[0] == '^'
+			if not {
+				pattern = pattern[1:]
+			}
+
+			match := false
+			for len(pattern) > 0 && pattern[0] != ']' {
+				if pattern[0] == '\\' && len(pattern) >= 2 {
+					pattern = pattern[1:]
+					if pattern[0] == candidate[0] {
+						match = true
+					}
+				} else if len(pattern) >= 3 && pattern[1] == '-' {
+					start, end := pattern[0], pattern[2]
+					if start > end {
+						start, end = end, start
+					}
+					pattern = pattern[2:]
+					if candidate[0] >= start && candidate[0] <= end {
+						match = true
+					}
+				} else if pattern[0] == candidate[0] {
+					match = true
 				}
-				if letter == '\\' && patPos+1 < len(pattern) {
-					patPos++
-				}
-				patSet.WriteRune(pattern[patPos])
-				patPos++
+				pattern = pattern[1:]
 			}
-			if !strings.ContainsRune(patSet.String(), candidate[i]) {
+
+			if not {
+				match = !match
+			}
+			if !match {
 				return false
 			}
-		} else if patCh == '\\' && patPos+1 < len(pattern) {
-			patPos++
-			if pattern[patPos] != candidate[i] {
+			candidate = candidate[1:]
+			if len(pattern) == 0 {
+				// unterminated character class
+				return len(candidate) == 0
+			}
+
+		case '\\':
+			if len(pattern) >= 2 {
+				pattern = pattern[1:]
+			}
+			fallthrough
+
+		default:
+			if pattern[0] != candidate[0] {
 				return false
 			}
-			patPos++
-		} else {
-			if patCh != candidate[i] {
-				return false
-			}
-			patPos++
+			candidate = candidate[1:]
+		}
+
+		pattern = pattern[1:]
+	}
+
+	if len(candidate) == 0 {
+		for len(pattern) > 0 && pattern[0] == '*' {
+			pattern = pattern[1:]
 		}
 	}
 
-	for patPos < len(pattern) && pattern[patPos] == '*' {
-		patPos++
-	}
-
-	return patPos >= len(pattern)
+	return len(pattern) == 0 && len(candidate) == 0
 }
